@@ -12,8 +12,11 @@
 (*                (old & mask) = target return false; CAS(old -> (old & ~3) | target); retry       *)
 (*   kind "log"   ObjectBarrier::log_object (plan/barriers.rs): load; if 0 return false;           *)
 (*                CAS(1 -> 0); retry                                                               *)
-(*   kind "pin"   VMLocalPinningBitSpec::pin_object (util/metadata/pin_bit.rs): ONE CAS(0 -> 1)    *)
-(*   kind "unpin" unpin_object: ONE CAS(1 -> 0)                                                    *)
+(*   kind "pin"   VMLocalPinningBitSpec::pin_object (util/metadata/pin_bit.rs): CAS(0 -> 1); on   *)
+(*                failure load the bit: if it is still 0 (only a neighbour changed) retry, else    *)
+(*                return false.  (Before the repair "fix: pin_object ..." it was ONE CAS; that     *)
+(*                behaviour is kept as Mutant = "pin_single_shot".)                                *)
+(*   kind "unpin" unpin_object: the same with CAS(1 -> 0)                                          *)
 (*   kind "set"   a plain atomic store of the target (VMLocalMarkBitSpec::mark,                   *)
 (*                VMGlobalLogBitSpec::mark_as_unlogged / clear), used as a neighbour updater      *)
 (* Fields narrower than a byte (sub = TRUE) are updated as the implementation does it             *)
@@ -29,6 +32,7 @@ EXTENDS Naturals, Integers, FiniteSets, Sequences, TLC
 
 CONSTANTS Scenarios,   \* set of scenario records (see ScenarioOK)
           Mutant       \* "none" | "cas_reports_success" | "cas_plain" | "no_retry" | "rmw_store"
+                       \* | "pin_single_shot"
 
 VARIABLE st
 
@@ -95,10 +99,22 @@ CasS(s, t) ==
                             ELSE IF Mutant = "no_retry"
                             THEN [s EXCEPT !.pc[t] = "retn", !.won[t] = 0]
                             ELSE [s EXCEPT !.pc[t] = "ld"])
-                      ELSE [s EXCEPT !.pc[t] = "retn", !.won[t] = 0]
+                      ELSE IF Mutant = "pin_single_shot"
+                      THEN [s EXCEPT !.pc[t] = "retn", !.won[t] = 0]
+                      ELSE [s EXCEPT !.pc[t] = "pinld"]
          IN  IF Mutant = "cas_plain" \/ matches
              THEN { <<<<"cas", f, s.old[t], s.new[t], 1>>, okS>> }
              ELSE { <<<<"cas", f, s.old[t], s.new[t], 0>>, failS>> }
+
+\* pin_object / unpin_object after a failed compare-exchange: load the pin bit; retry if it still
+\* has the expected value (only a neighbouring field of the byte changed), else return false
+PinLoadS(s, t) ==
+    IF s.pc[t] # "pinld" THEN {}
+    ELSE LET f == s.sc.fo[t]
+             v == s.mem[f]
+         IN  { <<<<"ld", f, v, 0, 0>>,
+                 IF v = s.old[t] THEN [s EXCEPT !.pc[t] = "casld"]
+                 ELSE [s EXCEPT !.pc[t] = "retn", !.won[t] = 0]>> }
 
 \* kind "set": atomic store (sub-byte: fetch_update of the byte, atomic)
 StoreS(s, t) ==
@@ -118,16 +134,18 @@ ReturnS(s, t) ==
     IF s.pc[t] # "retn" THEN {}
     ELSE { <<<<"ret", s.sc.fo[t], s.won[t], 0, 0>>, [s EXCEPT !.pc[t] = "done"]>> }
 
-StepS(s, t) == LoadS(s, t) \cup ByteLoadS(s, t) \cup CasS(s, t) \cup StoreS(s, t) \cup ReturnS(s, t)
+StepS(s, t) == LoadS(s, t) \cup ByteLoadS(s, t) \cup CasS(s, t) \cup PinLoadS(s, t) \cup StoreS(s, t)
+               \cup ReturnS(s, t)
 
 Load == \E t \in ThreadsOf(st.sc) : \E p \in LoadS(st, t) : st' = p[2]
 ByteLoad == \E t \in ThreadsOf(st.sc) : \E p \in ByteLoadS(st, t) : st' = p[2]
 Cas == \E t \in ThreadsOf(st.sc) : \E p \in CasS(st, t) : st' = p[2]
+PinLoad == \E t \in ThreadsOf(st.sc) : \E p \in PinLoadS(st, t) : st' = p[2]
 Store == \E t \in ThreadsOf(st.sc) : \E p \in StoreS(st, t) : st' = p[2]
 Return == \E t \in ThreadsOf(st.sc) : \E p \in ReturnS(st, t) : st' = p[2]
 
 Init == st \in { InitState(sc) : sc \in Scenarios }
-Next == Load \/ ByteLoad \/ Cas \/ Store \/ Return
+Next == Load \/ ByteLoad \/ Cas \/ PinLoad \/ Store \/ Return
 Spec == Init /\ [][Next]_st
 FairSpec == Spec /\ \A t \in 1..4 : WF_st(t \in ThreadsOf(st.sc) /\ \E p \in StepS(st, t) : st' = p[2])
 
@@ -190,17 +208,16 @@ Neighbour(N) ==
             k1 \in {"mark", "log", "los"}, k2 \in {"mark", "log", "set", "pin"},
             i1 \in 0..1, i2 \in 0..1, b1 \in {1}, b2 \in {1, 2}, fo \in fos }
 
-\* looped kinds only, or pin without an active neighbour in its byte: the property must hold
-PinHasNeighbour(sc) ==
-    \E f \in FieldsOf(sc) : sc.kind[f] \in {"pin", "unpin"} /\ sc.sub[f]
-                            /\ \E g \in Mates(sc, f) \ {f} : RacersOf(sc, g) # {}
-GoodScenarios(N) == { sc \in Single(N) \cup Neighbour(N) : ~PinHasNeighbour(sc) }
-\* FINDING (C18): the single-shot pin_object / unpin_object CAS next to a concurrently updated
-\* field of the same byte can fail although the pin bit had the expected value: nobody observes
-\* the transition and the object stays unpinned.
+\* pin / unpin next to a concurrently updated field of the same byte. With the original
+\* single-shot compare-exchange (Mutant = "pin_single_shot") the CAS can fail although the pin bit
+\* had the expected value: nobody observes the transition and the object stays unpinned
+\* (finding pin_object:spurious-failure, repaired in mmtk-core).
 PinNeighbourScenarios ==
-    { Sc(<<"pin", k2>>, <<TRUE, TRUE>>, <<0, 0>>, <<1, 1>>, <<1, 1>>, <<1, 1>>, <<1, 2>>) :
-        k2 \in {"pin", "set", "mark"} }
+    { Sc(<<k1, k2>>, <<TRUE, TRUE>>, <<i1, 0>>, <<1, 1>>, <<1, 1>>, <<1, 1>>, <<1, 2>>) :
+        k1 \in {"pin", "unpin"}, i1 \in 0..1, k2 \in {"pin", "set", "mark"} }
+\* all scenarios: the property must hold for every kind, also for pin / unpin next to a
+\* concurrently updated field of the same byte (since the repair of pin_object / unpin_object)
+GoodScenarios(N) == Single(N) \cup Neighbour(N) \cup (IF N >= 2 THEN PinNeighbourScenarios ELSE {})
 MCGood2 == GoodScenarios(2)
 MCGood3 == GoodScenarios(3)
 MCGood4 == GoodScenarios(4)
